@@ -199,6 +199,26 @@ def run_case(case):
                           f"{fp}/ravel-of-wind", f"ravel(wind({vlabel})(y)) != y for dims={dims}",
                           want_back.dims, back.dims)
 
+    # a slice of a dataset variable: the extra dimensions carry the dataset's own names but other lengths
+    if case['extras'] in (1, 2):
+        rec.nontrivial('sliced-variable')
+        named = (truth.time_dim, truth.depth_dim)[:case['extras']]
+        sizes3 = {**{d: s for d, s in zip(grid_dims, grid_shape)}, truth.time_dim: ds.sizes[truth.time_dim] + 1, truth.depth_dim: 1}
+        for order in itertools.permutations(named + grid_dims):
+            x = labelled(order, sizes3)
+            rest = tuple(d for d in order if d not in grid_dims)
+            try:
+                flat = lib(convention.ravel, x)
+                want_flat, _ = ref.ref_ravel(x, grid_dims)
+                ok = rec.check(tuple(flat.dims[:-1]) == rest and ref.same_values(flat.values, want_flat), f"{fp}/sliced-variable",
+                               f"ravel of a variable with dims {order} whose {named} differ in length from the dataset", rest, flat.dims)
+                if ok:
+                    wound = wind(flat)
+                    rec.check(tuple(wound.dims) == rest + grid_dims and ref.same_values(wound.values, x.transpose(*rest, *grid_dims).values),
+                              f"{fp}/sliced-variable", f"wind(ravel(x)) for dims {order}", rest + grid_dims, wound.dims)
+            except LibraryRaised as err:
+                rec.check(False, f"{fp}/sliced-variable", f"ravel/wind refused a slice of a variable, dims {order}", 'round trip', str(err))
+
     # variables that are on no grid are refused
     if case['extras'] == 0:
         off_grid = [xr.DataArray(1.0), xr.DataArray(np.arange(2.0), dims=['a']),
